@@ -157,6 +157,43 @@ def join_mode_histories(rep, db, S, exclude):
     return n
 
 
+def from_select_histories(rep, db):
+    """A query that iterates over a lazy slice of another query: the inner limit / offset are part of the type of `.0` and so of
+    every cache key.  Differential (structural): the SQL of the second execution equals a cold translation of it."""
+    from pony.orm import core, db_session
+    P = db.P
+    variants = [(None, 1), (None, 2), (None, None), (2, 1), (2, None), (3, 1), (2, 2)]
+    def text(v):
+        lim, off = v
+        with db_session:
+            base = core.select('(p for p in P)', {'P': P}, {}).order_by(P.id)
+            inner = base.limit(lim, offset=off) if (lim is not None or off is not None) else base
+            q = core.select('(x for x in inner if x.a > 0)', {}, {'inner': inner})
+            return q._construct_sql_and_arguments()[:2]
+    n = 0
+    for v1 in variants:
+        for v2 in variants:
+            if v1 == v2: continue
+            n += 1
+            name = 'from-select | inner slice limit/offset %r then %r' % (v1, v2)
+            clear_caches(db)
+            try: cold = text(v2)
+            except Exception as ex: cold = ('error', type(ex).__name__)
+            clear_caches(db)
+            try: text(v1)
+            except Exception: pass
+            try: warm = text(v2)
+            except Exception as ex: warm = ('error', type(ex).__name__)
+            if warm != cold:
+                rep.add(Ob(name + ' [differential]', 'concrete-tie', CEX, detail='warm %r | cold %r' % (warm, cold), reproduced=True, key='warm-differs-from-cold',
+                           cex={'first': repr(v1), 'second': repr(v2), 'warm': repr(warm)[:300], 'cold': repr(cold)[:300]},
+                           replay='# C05: select over a lazy slice %r then %r: warm %r, cold %r\nraise SystemExit(1)\n' % (v1, v2, warm, cold)))
+            else:
+                rep.add(Ob(name + ' [differential]', 'concrete-tie', HOLDS))
+    clear_caches(db)
+    return n
+
+
 def session_histories(rep):
     """Per-session result cache and entity-level SQL caches (concrete histories on real SQLite, NOT solver-quantified): the second
     step of each history must return what a cold evaluation of it returns on the same data."""
@@ -340,6 +377,7 @@ def run(tier, seed, only=None):
         n += chain_histories(rep, db, S3, tier, rng, exclude + [e['key'] for e in load_known('C24')])
         clear_caches(db)
     if not only or only == 'join': n += join_mode_histories(rep, db, S, exclude)
+    if not only or only == 'fromselect': n += from_select_histories(rep, db)
     rep.programs = n
     if not only: alternating_code_objects(rep, db)
     if not only or only == 'session': session_histories(rep)
